@@ -62,6 +62,15 @@ def call(ctx, *a, **kw):
             if v is not kw[name]:
                 ctx.note("numpy.bool_ flags")
             kw[name] = v
+    if FLAGRNG[0] is not None and len(a) == 1 and FLAGRNG[0].random() < 0.25:
+        # the documented signature is (dgms, keep_inf=False, val_inf=None, normalize=False): the same call with positional options
+        order = ["keep_inf", "val_inf", "normalize"]
+        last = max([order.index(x) for x in kw if x in order] + [-1])
+        if set(kw) <= set(order) and last >= 0:
+            defaults = {"keep_inf": False, "val_inf": None, "normalize": False}
+            pos = [kw.get(x, defaults[x]) for x in order[: last + 1]]
+            ctx.note("calls with positional options")
+            return PE(a[0], *pos)
     return PE(*a, **kw)
 
 
